@@ -9,7 +9,7 @@ from pyvc.sstr import SStr, Fmt, Atom
 from pyvc.report import Task
 from pyvc.tasks import repo, budget, result_dict
 from pyvc.solve import Obligation, discharge
-from pyvc.symex import explore, Obj, Opaque, PyRaise, make_exc
+from pyvc.symex import explore, built_instance, Obj, Opaque, PyRaise, make_exc
 
 ENC = 'encoder.NMEA2000Encoder.'
 HAS_PLAIN = z3.Function('has_encode_pgn', z3.IntSort(), z3.BoolSort())            # encode_pgn_<PGN> exists
@@ -51,7 +51,7 @@ class CallEncodeTask(Task):
             mid = SStr([Atom('message.id')])
             msg = Obj(r.cls('message', 'NMEA2000Message'), {'PGN': pgn, 'id': mid, 'fields': Opaque('fields')})
             g['msg'], g['pgn'], g['mid'] = msg, pgn, mid
-            enc = Obj(r.cls('encoder', 'NMEA2000Encoder'), {'sequence_counter': ex.fresh('seq', bits=3)})
+            enc = built_instance(ex, r.cls('encoder', 'NMEA2000Encoder'), {'sequence_counter': ex.fresh('seq', bits=3)})
             g['enc'] = enc
             g['enc_attrs'] = dict(enc.attrs)
 
@@ -138,7 +138,7 @@ class EncodeTask(Task):
             g['f'] = f
             msg = Obj(r.cls('message', 'NMEA2000Message'), dict(f, id='x', fields=Opaque('fields')))
             g['msg'] = msg
-            enc = Obj(r.cls('encoder', 'NMEA2000Encoder'), {'sequence_counter': ex.fresh('seq', bits=3)})
+            enc = built_instance(ex, r.cls('encoder', 'NMEA2000Encoder'), {'sequence_counter': ex.fresh('seq', bits=3)})
             g['payload'] = SBytes([ex.fresh(f'payload[{i}]', bits=8) for i in range(self.payload_len)])
             g['frames'] = [Opaque('frame0'), Opaque('frame1')]
             return ex._run_body(info, [msg], {}, enc)
